@@ -89,6 +89,8 @@ type LoopInfo struct {
 	BackPreds []*ssa.BasicBlock
 	Ord       int
 	MinPos    token.Pos
+	StmtPos   token.Pos // source range of the loop statement
+	StmtEnd   token.Pos
 	Spec      *LoopSpec
 	// recorded at header
 	variant    Term
